@@ -231,6 +231,7 @@ void Network::start_write(int id, const std::vector<boost::asio::const_buffer>& 
         wf.fired = true;
         c.fault_injected = true; c.transport_fault = true;
         size_t k = offered * (size_t)wf.deliver_permille / 1000;
+        if (c.severed || c.blackhole || c.broker_closed) k = 0;     // nothing can reach the peer any more (no gaps in a TCP stream)
         c.fault_log.push_back("write_fault deliver " + std::to_string(k) + "/" + std::to_string(offered));
         w.count("fault.write_error");
         if (k == offered) w.count("fault.write_error_all_delivered");
